@@ -46,3 +46,38 @@ def showInts (xs : List Int) : String :=
   if xs.isEmpty then "-" else String.intercalate "," (xs.map toString)
 
 end NeoFS
+
+namespace NeoFS
+
+def hexDigitVal (c : Char) : Option Nat :=
+  if '0' ≤ c && c ≤ '9' then some (c.toNat - '0'.toNat)
+  else if 'a' ≤ c && c ≤ 'f' then some (c.toNat - 'a'.toNat + 10)
+  else if 'A' ≤ c && c ≤ 'F' then some (c.toNat - 'A'.toNat + 10)
+  else none
+
+/-- hex string (optionally terminated by `_`) to bytes. -/
+def hexToBytes (s : String) : Option (List Nat) :=
+  let rec go : List Char → List Nat → Option (List Nat)
+    | [], acc => some acc.reverse
+    | ['_'], acc => some acc.reverse
+    | a :: b :: r, acc =>
+      match hexDigitVal a, hexDigitVal b with
+      | some x, some y => go r ((x * 16 + y) :: acc)
+      | _, _ => none
+    | _, _ => none
+  go s.toList []
+
+def hexDigit (n : Nat) : Char :=
+  if n < 10 then Char.ofNat ('0'.toNat + n) else Char.ofNat ('a'.toNat + n - 10)
+
+def bytesToHex (b : List Nat) : String :=
+  String.ofList (b.flatMap fun x => [hexDigit (x / 16 % 16), hexDigit (x % 16)])
+
+def OpLine.bytes? (o : OpLine) (k : String) : Option (List Nat) :=
+  (o.get? k).bind hexToBytes
+
+/-- bytes of a hex field as characters (Go strings are byte strings). -/
+def OpLine.chars? (o : OpLine) (k : String) : Option (List Char) :=
+  (o.bytes? k).map (·.map Char.ofNat)
+
+end NeoFS
